@@ -249,6 +249,16 @@ def run_property(prop, tier, jobs, keep):
         if not ok:
             tail = "\n".join(out.splitlines()[-40:])
             log("BUILD FAILED for configuration %s:\n%s" % (c, tail))
+            if prop == "C18" and re.search(r"cannot be (shared|sent) between threads safely", out) and "src/c18.rs" in out:
+                # the Send + Sync instantiations are discharged by rustc's trait solver while the encoding is produced
+                rp_dir = os.path.join(VERIF, "replays", "C18")
+                os.makedirs(rp_dir, exist_ok=True)
+                rp = os.path.join(rp_dir, "send-sync-%s.json" % c)
+                bad = re.findall(r"error\[E0277\]: `([^`]*)` cannot be (?:shared|sent) between threads safely", out)
+                json.dump({"engine": "observation", "property": "C18", "label": "C18.public_types_are_send_and_sync",
+                           "what": "Send + Sync instantiation rejected by rustc: %s" % ", ".join(sorted(set(bad))), "build_log_tail": tail,
+                           "how": "./check C18 (the harness crate's c18 module no longer compiles)"}, open(rp, "w"), indent=1)
+                violations.append(("C18.public_types_are_send_and_sync", rp))
             for h in hs:
                 if h.cfg == c:
                     r = kani_run.HarnessResult(h.key)
